@@ -1,7 +1,7 @@
 """Shared by C01, C02, C03, C13 (and the context half of C12): program generator, the depsrun
 harness driver, translation of programs and observed traces into Coq terms, trace acceptance by
 the model (Model/DepsReplay.accepts evaluated by coqc) and the direct oracles."""
-import json, os, itertools
+import json, os, itertools, shutil
 from vlib import *
 
 CTX_KINDS = (2, 3, 5, 7, 8)
@@ -222,7 +222,71 @@ def discover_knobs():
     return sorted(found - KNOWN_KNOBS - KNOWN_AMBIENT)
 
 
-KNOB_VALUES = ["1", "true", "0", ",", "N0_1,", "_1", "all", "10ms", "x"]
+_API_INFO = {}
+
+
+def api_info(gen_path=None):
+    """API DISCOVERY (the counterpart of discover_knobs for exported functions): harness/apiprobe type-checks packages mg, sh
+    and target of the tree under test and lists the exported package-level functions (and func-typed variables) that the
+    API at /repo HEAD does not have - names no model knows.  With gen_path it also writes the Go file that calls each of
+    them with arguments synthesised from the parameter types (tools/notes/APIprobe.md).  Returns the tool's JSON summary
+    ({"names": [...], "called": [...], "skipped": {...}, ...}); {"names": []} on the unchanged tree."""
+    import tempfile, subprocess
+    if REPO in _API_INFO and not gen_path:
+        return _API_INFO[REPO]
+    tmp = tempfile.mkdtemp(prefix="vpapi_")
+    try:
+        binp = os.path.join(tmp, "apiprobe")
+        rc, o, e = sh(["go", "build", "-o", binp, "."], cwd=os.path.join(VERIF, "harness", "apiprobe"), env=goenv(), timeout=600)
+        if rc != 0:
+            raise BuildError("go build of harness/apiprobe failed:\n%s" % (o + e)[-2000:])
+        rc, o, e = sh([binp] + (["-o", gen_path] if gen_path else []) + [REPO], env=goenv(), timeout=600)
+        if rc != 0:
+            raise BuildError("harness/apiprobe failed on %s:\n%s" % (REPO, (o + e)[-2000:]))
+        info = json.loads(o.strip().splitlines()[-1])
+    finally:
+        shutil.rmtree(tmp, ignore_errors=True)
+    _API_INFO[REPO] = info
+    return info
+
+
+def discover_api():
+    """Exported functions of packages mg / sh / target in the tree under test that are not part of the known API
+    (e.g. ["mg.PrintStats", "mg.Stats"]).  Empty on the unchanged tree."""
+    return list(api_info().get("names") or [])
+
+
+def build_depsrun(ctx):
+    """Build harness/depsrun for the tree under test.  When the tree exports functions outside the known API, the file
+    harness/apiprobe generates (func apiCalls: one call per discovered function) replaces the committed stub
+    api_calls_gen.go - in the temporary build directory only - and the harness is built again with it."""
+    binp = go_build_harness(ctx, "depsrun")
+    if discover_api():
+        dst = os.path.join(ctx.tmp, "src_depsrun")
+        gen = os.path.join(dst, "api_calls_gen.go")
+        info = api_info(gen_path=gen)
+        ctx.coverage["API_calls_generated"] = {"called": info.get("called"), "skipped": info.get("skipped")}
+        rc, o, e = sh(["go", "build", "-o", binp, "-tags", GUARD_TAG, "."], cwd=dst, env=goenv(), timeout=900)
+        if rc != 0:
+            # the synthesised calls do not compile: say so (evidence) and go on with the stub - never block the check
+            ctx.coverage["API_calls_generated"]["build_error"] = (o + e)[-1500:]
+            shutil.copy(os.path.join(VERIF, "harness", "depsrun", "api_calls_gen.go"), gen)
+            rc, o, e = sh(["go", "build", "-o", binp, "-tags", GUARD_TAG, "."], cwd=dst, env=goenv(), timeout=900)
+            if rc != 0:
+                raise BuildError("go build of harness depsrun failed:\n%s" % (o + e)[-4000:])
+    return binp
+
+
+KNOB_VALUES = ["1", "true", "@FILE", "0", "1s", ",", "N0_1,", "_1", "all", "10ms", "x", "@DIR"]   # @FILE / @DIR: a writable path in a fresh temp directory (log, trace, report files)
+
+
+def knob_value(v):
+    """the concrete value of a knob: @FILE / @DIR stand for a writable file path / directory of their own"""
+    if v in ("@FILE", "@DIR"):
+        import tempfile
+        d = tempfile.mkdtemp(prefix="vpknob_")
+        return os.path.join(d, "knob.out") if v == "@FILE" else d
+    return v
 
 
 def run_program(binp, prog):
@@ -230,9 +294,14 @@ def run_program(binp, prog):
     env["MAGEFILE_VERBOSE"] = "1" if prog.get("verbose") else "0"
     # debug mode must not change what runs, in which order, or what is propagated (its own lines start with DEBUG:)
     env["MAGEFILE_DEBUG"] = "1" if prog.get("debug") else "0"
+    tmpdirs = []
     for k, v in (prog.get("knobs") or {}).items():
-        env[k] = v
+        env[k] = knob_value(v)
+        if v in ("@FILE", "@DIR"):
+            tmpdirs.append(env[k] if v == "@DIR" else os.path.dirname(env[k]))
     rc, out, err = sh([binp], input=json.dumps(prog).encode(), env=env, timeout=60)
+    for d in tmpdirs:
+        shutil.rmtree(d, ignore_errors=True)
     trace = [json.loads(l) for l in out.splitlines() if l.startswith("{")]
     logs = {}
     for l in err.splitlines():
@@ -461,7 +530,7 @@ def nontrivial(prog, trace):
 def run_engine_check(ctx, pid, nprog, serial_bias=False, extra_programs=None, oracles=None):
     """The common part: generate, run, oracle, trace acceptance. Returns list of (prog, result)."""
     oracles = oracles or [pid]
-    binp = go_build_harness(ctx, "depsrun")
+    binp = build_depsrun(ctx)
     rng = ctx.rng
     progs = list(extra_programs or [])
     # corpus first
@@ -477,6 +546,7 @@ def run_engine_check(ctx, pid, nprog, serial_bias=False, extra_programs=None, or
         progs.append(gen_program(rng, nmax=20 if big else 8, serial_bias=serial_bias))
     knobs = discover_knobs()
     ctx.coverage["unmodelled_MAGEFILE_variables_in_source"] = knobs
+    ctx.coverage["unmodelled_API_in_source"] = discover_api()
     if knobs:
         # an environment variable the models do not know: every third program runs with it set to some plausible value
         for i, pr in enumerate(progs):
